@@ -148,8 +148,10 @@ SQL_DDL = """
         batch_num_samp               NDARRAY,
         method_samp                  NDARRAY
     );
+"""
 
-    DELETE FROM checkpoint;
+SQL_DELETE_QUERY = """
+    DELETE FROM checkpoint
 """
 
 
@@ -349,6 +351,10 @@ def save_calibrator_state(  # noqa: PLR0913
         cursor.execute(SQL_SAVE_USER_VERSION)
         cursor.executescript(SQL_DDL)
 
+        # the previous checkpoint is deleted in the same transaction that inserts
+        # the new one (executescript would commit the deletion immediately), so
+        # that a failed save rolls back to the previous checkpoint
+        cursor.execute(SQL_DELETE_QUERY)
         cursor.execute(
             SQL_SAVE_QUERY,
             (
